@@ -5,13 +5,42 @@ Section V.
   Variable same_file : path -> path -> bool.
   Variable o : opts.
 
-  Lemma check_sources_some dest dd ss s :
+  Lemma check_sources_some dest dd ss s : forall seen,
     In s ss -> check_source exists_ is_dir same_file o dest dd s <> None ->
-    check_sources exists_ is_dir same_file o dest dd ss <> None.
+    check_sources exists_ is_dir same_file o dest dd seen ss <> None.
   Proof.
-    induction ss as [|x r IH]; intros Hin Hs; [destruct Hin|]. cbn [check_sources].
+    induction ss as [|x r IH]; intros seen Hin Hs; [destruct Hin|]. cbn [check_sources].
     destruct (check_source exists_ is_dir same_file o dest dd x) eqn:E; [discriminate|].
-    destruct Hin as [->|Hin]; [congruence|]. now apply IH.
+    destruct Hin as [->|Hin]; [congruence|].
+    destruct (target_base dest x dd (o_no_target_dir o)); [|now apply IH].
+    destruct (existsb _ seen); [discriminate|now apply IH].
+  Qed.
+
+  (* a later source whose mapped destination is already in `seen` is rejected *)
+  Lemma check_sources_seen dest dd ss s tb : forall seen,
+    In s ss -> target_base dest s dd (o_no_target_dir o) = Some tb -> existsb (path_eqb tb) seen = true ->
+    check_sources exists_ is_dir same_file o dest dd seen ss <> None.
+  Proof.
+    induction ss as [|x r IH]; intros seen Hin Htb Hex; [destruct Hin|]. cbn [check_sources].
+    destruct (check_source exists_ is_dir same_file o dest dd x) eqn:E; [discriminate|].
+    destruct Hin as [->|Hin].
+    - rewrite Htb, Hex. cbv iota. intros HH. discriminate HH.
+    - destruct (target_base dest x dd (o_no_target_dir o)) as [tbx|]; [|now apply IH].
+      destruct (existsb (path_eqb tbx) seen); [discriminate|]. apply IH; try assumption. cbn [existsb]. rewrite Hex. apply orb_true_r.
+  Qed.
+
+  Lemma check_sources_dup dest dd l1 s1 l2 s2 tb1 tb2 : forall seen,
+    In s2 l2 -> target_base dest s1 dd (o_no_target_dir o) = Some tb1 ->
+    target_base dest s2 dd (o_no_target_dir o) = Some tb2 -> path_eqb tb2 tb1 = true ->
+    check_sources exists_ is_dir same_file o dest dd seen (l1 ++ s1 :: l2) <> None.
+  Proof.
+    induction l1 as [|x l1 IH]; intros seen Hin H1 H2 He; cbn [app check_sources].
+    - destruct (check_source exists_ is_dir same_file o dest dd s1); [discriminate|]. rewrite H1.
+      destruct (existsb _ seen); [discriminate|].
+      apply (check_sources_seen dest dd l2 s2 tb2); try assumption. cbn [existsb]. now rewrite He.
+    - destruct (check_source exists_ is_dir same_file o dest dd x); [discriminate|].
+      destruct (target_base dest x dd (o_no_target_dir o)); [|now apply IH].
+      destruct (existsb _ seen); [discriminate|now apply IH].
   Qed.
 
   (* every invalid invocation is rejected by the validation block — whatever the
@@ -26,9 +55,10 @@ Section V.
     destruct (negb dd && (match rest with [] => false | _ => true end)) eqn:Emulti; [discriminate|].
     assert (forall s, In s (s0 :: rest) ->
               check_source exists_ is_dir same_file o dest (exists_ dest && dd) s <> None ->
-              check_sources exists_ is_dir same_file o dest (exists_ dest && dd) (s0 :: rest) <> None) as K
+              check_sources exists_ is_dir same_file o dest (exists_ dest && dd) [] (s0 :: rest) <> None) as K
         by (intros s; apply check_sources_some).
-    destruct H as [H|s Hin Hex|s Hin Hd Hr|Hlen Hnd|s tb Hin Hd Hm Hex Hnd|s tb Hin Hm Hs|s Hin Hs].
+    destruct H as [H|s Hin Hex|s Hin Hd Hr|Hlen Hnd|s tb Hin Hd Hm Hex Hnd|s tb Hin Hm Hs|s Hin Hs
+                   |l1 s1 l2 s2 tb1 tb2 Hsplit Hin2 Hm1 Hm2 Heq].
     - discriminate.
     - apply (K s Hin). unfold check_source. rewrite Hex. discriminate.
     - apply (K s Hin). unfold check_source. destruct (exists_ s); [|discriminate]. cbn [negb].
@@ -51,6 +81,8 @@ Section V.
     - apply (K s Hin). unfold check_source.
       destruct (exists_ s); [|discriminate]. cbn [negb].
       destruct (is_dir s && negb (o_recursive o)); [discriminate|]. rewrite Hs. discriminate.
+    - rewrite Hsplit. unfold mapped in Hm1, Hm2. fold dd in Hm1, Hm2.
+      eapply check_sources_dup; eauto.
   Qed.
 
   (* conversely: when validation passes, no class of the property applies
@@ -66,14 +98,16 @@ Section V.
     destruct (negb (is_dir dest) && (match rest with [] => true | _ => false end) && is_dir s0 && exists_ dest); [discriminate|].
     destruct (negb (is_dir dest) && (match rest with [] => false | _ => true end)) eqn:Em; [discriminate|].
     split.
-    - assert (forall ss, check_sources exists_ is_dir same_file o dest (exists_ dest && is_dir dest) ss = None ->
+    - assert (forall ss seen, check_sources exists_ is_dir same_file o dest (exists_ dest && is_dir dest) seen ss = None ->
                          forall s, In s ss -> exists_ s = true /\ (is_dir s = true -> o_recursive o = true)) as G.
-      { induction ss as [|x r IH]; intros Hc s Hin; [destruct Hin|]. cbn [check_sources] in Hc.
+      { induction ss as [|x r IH]; intros seen Hc s Hin; [destruct Hin|]. cbn [check_sources] in Hc.
         destruct (check_source exists_ is_dir same_file o dest (exists_ dest && is_dir dest) x) eqn:E; [discriminate|].
-        destruct Hin as [<-|Hin]; [|now apply IH].
+        destruct Hin as [<-|Hin].
+        2:{ destruct (target_base dest x (exists_ dest && is_dir dest) (o_no_target_dir o)); [|eapply IH; eauto].
+            destruct (existsb _ seen); [discriminate|eapply IH; eauto]. }
         unfold check_source in E. destruct (exists_ x); [|discriminate]. split; [reflexivity|]. cbn [negb] in E.
         intros Hd. rewrite Hd in E. destruct (o_recursive o); [reflexivity|discriminate]. }
-      now apply G.
+      now apply (G _ []).
     - intros Hlen. destruct (is_dir dest); [reflexivity|]. cbn [negb andb] in Em.
       destruct rest; [cbn in Hlen; lia|discriminate].
   Qed.
